@@ -23,7 +23,22 @@ pub fn run(ctx: &Ctx, rep: &mut Report) {
         let bd = 2 + rng.below(2);
         let body = evgen::gexpr(&mut rng, bt, &sc, bd);
         // the closure may also use its parameter and a shorthand record
-        let (def, call) = match i % 5 {
+        let reuse = if nums.is_empty() { None } else { Some(rng.pick(&nums).clone()) };
+        let (def, call) = match i % 8 {
+            // a do-block / lambda / nested do-block inside the body binds a local that has the name of a
+            // captured variable; the variable is used again after it
+            5 if reuse.is_some() => {
+                let v = reuse.clone().unwrap();
+                (format!("clo = (arg) => [do {{\n  {} = arg * 2\n  return {}\n}}, {}, {}]", v, v, v, body), "clo(41)".to_string())
+            }
+            6 if reuse.is_some() => {
+                let v = reuse.clone().unwrap();
+                (format!("clo = (arg) => {{a: if arg > 0 then do {{\n  {} = 1\n  return {}\n}} else 0, b: {} + arg, c: [1] via ({} => {} + 1), d: {}}}", v, v, v, v, v, v), "clo(41)".to_string())
+            }
+            7 if reuse.is_some() => {
+                let v = reuse.clone().unwrap();
+                (format!("clo = (arg) => do {{\n  inner = do {{\n    {} = arg\n    return {} + 1\n  }}\n  return [inner, {}, {}]\n}}", v, v, v, body), "clo(41)".to_string())
+            }
             0 => (format!("clo = () => {}", body), "clo()".to_string()),
             1 => (format!("clo = (arg) => [arg, {}]", body), "clo(41)".to_string()),
             2 => (format!("clo = (arg, opt?) => {{v: {}, arg, opt}}", body), "clo(41)".to_string()),
@@ -33,7 +48,7 @@ pub fn run(ctx: &Ctx, rep: &mut Report) {
         let mut names: Vec<String> = nums.clone();
         names.push("local".into());
         names.push("arg".into());
-        let shadow = if names.is_empty() { "zz".to_string() } else { rng.pick(&names).clone() };
+        let shadow = if i % 8 >= 5 && reuse.is_some() { reuse.clone().unwrap() } else if names.is_empty() { "zz".to_string() } else { rng.pick(&names).clone() };
         let contexts = vec![
             call.clone(),
             format!("({} => {})(777)", shadow, call),
